@@ -93,7 +93,8 @@ def check_ellipsoid(e, pts, enlarge, label, fails, cases_q, rng, with_constructi
         if not np.allclose(I, np.eye(d), atol=1e-6):
             fails.append('%s: B_inv B differs from the identity by %g' % (label, np.abs(I - np.eye(d)).max()))
         Ainv = e.B @ e.B.T
-        if not np.allclose(e.A @ Ainv, np.eye(d), atol=1e-5 * max(1.0, np.linalg.cond(Ainv) * 1e-10)):
+        # residual of a computed inverse: of the order d * cond * machine epsilon (here with a factor 100), never below 1e-5
+        if not np.allclose(e.A @ Ainv, np.eye(d), atol=max(1e-5, 100.0 * d * np.linalg.cond(Ainv) * 2.2e-16)):
             fails.append('%s: A is not the inverse of B B^T (error %g)' % (label, np.abs(e.A @ Ainv - np.eye(d)).max()))
     if with_construction:
         inb = e.contains(pts)
